@@ -62,6 +62,18 @@ func describeGateCond(c *chk.Ctx, cd ir.Cond) string {
 			}
 			return "name!=" + fmt.Sprintf("%q", s)
 		}
+		// the remainder after strings.CutPrefix(name, P) compared with K: name == P+K (on the
+		// found edge, which is where the remainder differs from the name)
+		if e, isE := ir.NormCell(nm).(*ssa.Extract); isS && isE && e.Index == 0 {
+			if call, isCall := e.Tuple.(*ssa.Call); isCall && ir.IsCallTo(&call.Call, "strings.CutPrefix", "strings.TrimPrefix") {
+				if pfx, isP := constString(call.Call.Args[1]); isP && isName(call.Call.Args[0]) {
+					if op == token.EQL {
+						return "name==" + fmt.Sprintf("%q", pfx+s)
+					}
+					return "name!=" + fmt.Sprintf("%q", pfx+s)
+				}
+			}
+		}
 	}
 	return neg + "other(" + v.String() + ")"
 }
@@ -95,20 +107,51 @@ func ruleReservedPrefix(c *chk.Ctx) {
 	if len(altsIn) == 0 {
 		okEdges = false
 	}
+	// the edges are read as a disjunction of conjunctions over the two atoms "builtin" and
+	// "HasPrefix(name, P)"; it must be equivalent to ¬builtin ∨ ¬HasPrefix(name, P)
+	type term struct{ b, p int } // -1 absent, 0 negated, 1 positive
+	var terms []term
 	for _, conds := range altsIn {
 		var ks []string
+		t := term{-1, -1}
 		for _, cd := range dedupConds(conds) {
-			ks = append(ks, describeGateCond(c, cd))
+			k := describeGateCond(c, cd)
+			ks = append(ks, k)
+			switch {
+			case k == "builtin":
+				t.b = 1
+			case k == "¬builtin":
+				t.b = 0
+			case strings.HasPrefix(k, "HasPrefix(name,"), strings.HasPrefix(k, "¬HasPrefix(name,"):
+				pf := k[strings.Index(k, `"`)+1 : strings.LastIndex(k, `"`)]
+				if prefix != "" && prefix != pf {
+					okEdges = false
+				}
+				prefix = pf
+				if strings.HasPrefix(k, "¬") {
+					t.p = 0
+				} else {
+					t.p = 1
+				}
+			default:
+				okEdges = false
+			}
 		}
 		sort.Strings(ks)
-		k := strings.Join(ks, "∧")
-		seen = append(seen, k)
-		switch {
-		case k == "¬builtin":
-		case strings.HasPrefix(k, "builtin∧¬HasPrefix(name,") && strings.Count(k, "∧") == 1:
-			prefix = k[strings.Index(k, `"`)+1 : strings.LastIndex(k, `"`)]
-		default:
-			okEdges = false
+		seen = append(seen, strings.Join(ks, "∧"))
+		terms = append(terms, t)
+	}
+	for _, bv := range []int{0, 1} {
+		for _, pv := range []int{0, 1} {
+			got := false
+			for _, t := range terms {
+				if (t.b == -1 || t.b == bv) && (t.p == -1 || t.p == pv) {
+					got = true
+				}
+			}
+			if got != (bv == 0 || pv == 0) {
+				okEdges = false
+			}
 		}
 	}
 	sort.Strings(seen)
@@ -158,64 +201,26 @@ func ruleReservedPrefix(c *chk.Ctx) {
 		}
 		g := call.Call.StaticCallee()
 		// truth table of the accessor: true ⇐ options == nil, or ¬DisableBuiltin; false ⇐ DisableBuiltin
-		atom := func(cd ir.Cond) string {
-			if x, eq, ok := ir.NilCompare(cd.V); ok {
+		atomOf := func(v ssa.Value) (string, bool, bool) {
+			if x, eq, ok := ir.NilCompare(v); ok {
 				if _, isP := x.(*ssa.Parameter); isP {
-					if eq == cd.Truth {
-						return "nil"
-					}
-					return "nonnil"
+					return "nil", !eq, true
 				}
 			}
-			v, t := cd.V, cd.Truth
-			if u, ok := v.(*ssa.UnOp); ok && u.Op == token.NOT {
-				v, t = u.X, !t
-			}
-			if ld, ok := v.(*ssa.UnOp); ok {
+			if ld, ok := v.(*ssa.UnOp); ok && ld.Op == token.MUL {
 				if fa, ok := ld.X.(*ssa.FieldAddr); ok && ir.FieldVar(fa).Name() == "DisableBuiltin" {
-					if t {
-						return "disabled"
-					}
-					return "enabled"
+					return "disabled", false, true
 				}
 			}
-			return "?"
+			return "", false, false
 		}
 		okAcc := true
-		nTrue, nFalse := 0, 0
-		for _, r := range ir.Returns(g) {
-			v := ir.ReturnResult(r, 0)
-			for _, want := range []bool{true, false} {
-				var alts [][]ir.Cond
-				if k, isK := v.(*ssa.Const); isK && k.Value != nil {
-					if (k.Value.String() == "true") == want {
-						alts = [][]ir.Cond{ir.CondsAt(r.Block())}
-					}
-				} else {
-					for _, a := range ir.CondAlternatives(ir.Cond{V: v, Truth: want}, 0) {
-						alts = append(alts, append(append([]ir.Cond{}, ir.CondsAt(r.Block())...), a...))
-					}
-				}
-				for _, alt := range alts {
-					set := map[string]bool{}
-					for _, cd := range alt {
-						set[atom(cd)] = true
-					}
-					if want {
-						nTrue++
-						if !(set["nil"] || set["enabled"]) || set["disabled"] {
-							okAcc = false
-						}
-					} else {
-						nFalse++
-						if !set["disabled"] {
-							okAcc = false
-						}
-					}
-				}
+		for _, as := range []map[string]bool{{"nil": true, "disabled": false}, {"nil": false, "disabled": false}, {"nil": false, "disabled": true}} {
+			got, ok := c.P.EvalBool(g, atomOf, as)
+			if !ok || got != (as["nil"] || !as["disabled"]) {
+				okAcc = false
 			}
 		}
-		okAcc = okAcc && nTrue >= 2 && nFalse >= 1
 		c.Check(okAcc, "TABLE.prefix", g, "builtin = ¬DisableBuiltin", g.Pos(), "the accessor returns true for nil options and ¬DisableBuiltin otherwise", "the builtin flag is not exactly ¬DisableBuiltin (nil options ⇒ enabled)")
 	}
 }
